@@ -501,6 +501,25 @@ def solver_ops(T, tier, fmts):
                             T.check(f"{which}solve:{fmt}/{method}/sub{nsub}/{sname}/{'het' if het else 'hom'}", inputs, fn,
                                     targets=("smesolve" if which == "sme" else "ssesolve", "StochasticSolver_init", "_StochasticRHS_init"),
                                     detail={"fmt": fmt, "method": method, "substeps": nsub, "state": sname})
+        # ---- replays from a recorded noise / measurement record: the record handed in stays as it was
+        for which, cls in (("sme", qutip.SMESolver), ("sse", qutip.SSESolver)):
+            for nsc in (1, 2):
+                for method in (("euler", "platen", "rouchon") if tier == "thorough" else (str(rng.choice(["euler", "platen", "rouchon"])),)):
+                    st = qutip.ket2dm(psi) if which == "sme" else psi
+                    scs = [c[0], c[1]][:nsc]
+                    tl_ = np.linspace(0, 0.4, 5)
+                    o_ = {"method": method, "dt": 0.1, "store_measurement": "start", "progress_bar": "", "keep_runs_results": True, "store_states": True}
+                    try:
+                        base = cls(H0, scs, False, options=o_).run(st, tl_, ntraj=1, seeds=3)
+                    except Exception:      # noqa
+                        continue
+                    for rec_name, rec, meas in (("dW", np.array(base.dW[0]), False), ("measurement", np.array(base.measurement[0]), True)):
+                        for order_ in ("C", "F"):
+                            rec_in = np.array(rec, dtype=float, order=order_)
+                            inputs = {"H": H0, "sc_ops": list(scs), "psi": st, "tlist": tl_, "record": rec_in, "options": dict(o_)}
+                            T.check(f"run_from_experiment:{which}/{fmt}/{method}/{nsc}ch/{rec_name}/{order_}", inputs,
+                                    lambda d: cls(d["H"], d["sc_ops"], False, options=d["options"]).run_from_experiment(d["psi"], d["tlist"], d["record"], measurement=meas).states,
+                                    detail={"fmt": fmt, "method": method, "channels": nsc, "record": rec_name, "order": order_})
         # ---- stochastic solver objects reused with new arguments
         for which, cls in (("sme", qutip.SMESolver), ("sse", qutip.SSESolver)):
             for fname in ("qobjevo_func", "qobjevo_dictfunc"):
